@@ -13,8 +13,9 @@
    - PROVED FOR ALL BODIES (no size bound): same dead statements (C01_flow_agrees_with_builder,
      C01_flow_dead_iff_unreachable) and every reported line range contains only dead statements
      (C01_ranges_cover_only_dead, bodies whose ids are source-order line numbers);
-   - still bounded (exhaustive enumeration, <= 4 statement nodes): the complexity component of [check_one]
-     (C01_flow_agrees_with_builder_bounded); the two bounded theorems are kept as regression checks. *)
+   - the complexity component of [check_one] is now also proved for all bodies (Props/C03.v:
+     C03_builder_complexity_agrees, C03_check_one_all; Cfg/BuilderReg.v, Cfg/BuilderCx.v); the two bounded theorems
+     (<= 4 statement nodes, vm_compute) are kept as regression checks. *)
 From Coq Require Import NArith List.
 From PV Require Import Py.PyAST Py.PySem Cfg.Flow Cfg.FlowSound Cfg.Builder Cfg.BuilderBounded Cfg.BuilderAgree Cfg.BuilderRanges.
 
@@ -50,7 +51,7 @@ Proof. exact ranges_cover_only_dead_bounded. Qed.
    while/for/else, try/except/else/finally, with, match, comprehensions, nested def/class), plain and wrapped in a loop
    with an else clause: a statement is marked dead by Cfg/Flow.v iff Cfg/Builder.v puts it into a block the depth-first
    walk from ENTRY does not reach.  [check_dead] is [check_one] without its complexity component (the complexity part of
-   [check_one] stays bounded, C01_flow_agrees_with_builder_bounded).  Proof: Cfg/BuilderReach.v (DFS = path reachability),
+   [check_one] is proved for all bodies in Props/C03.v, C03_builder_complexity_agrees).  Proof: Cfg/BuilderReach.v (DFS = path reachability),
    Cfg/BuilderFrame*.v (the hasSuccessor(EXIT) guards of the builder never fire), Cfg/BuilderSim.v (simulation by
    mutual induction over the syntax), Cfg/BuilderAgree.v. *)
 Theorem C01_flow_agrees_with_builder : forall b, check_dead b = true.
